@@ -132,3 +132,44 @@ def event_builder(seed, n, defaults, tag, terminal_prob=0.35):
         cases.append(gen.solve_case(cid, **kw))
         metas[cid] = (meta, kw)
     return cases, metas
+
+
+def budget_builder(seed, n, defaults, tag):
+    """budget sweep: for base runs that had rejected attempts, EVERY budget max_steps = 1..nstep (so that the
+    attempt on which the budget runs out is, for some budgets, a rejected one: seeded change C11-b moved the
+    budget test into the accepted branch of one method, visible only then)"""
+    rng = random.Random(seed)
+    methods = sweep.available_methods()
+    bases = []
+    for i in range(12 * len(methods)):
+        kw, meta = sweep.base_case(rng, i, methods[i % len(methods)], defaults,
+                                   fams=[gen.fam_vdp, gen.fam_vdp, gen.fam_logistic, gen.fam_forced, gen.fam_rational] if i % 4 else None)
+        bases.append((kw, meta))
+    lines = [gen.solve_case("b%d" % i, **kw) for i, (kw, _) in enumerate(bases)]
+    impl, errs = harness.run_impl(lines)
+    good = []
+    for i, (kw, meta) in enumerate(bases):
+        r = gen.parse_result(impl.get("b%d" % i, []))
+        st = r.get("stats")
+        if r.get("status") == "Success" and st and st[3] > st[4] and st[3] <= 400:
+            good.append((kw, meta, st))
+    # the same share of the budget for every method; within a method, bases with more rejections first
+    cases, metas = [], {}
+    c = 0
+    quota = max(1, n // max(1, len(methods)))
+    for mth in methods:
+        mine = sorted([g for g in good if g[1]["method"] == mth], key=lambda g: -(g[2][3] - g[2][4]))[:3]
+        for bi, (kw, meta, st) in enumerate(mine):
+            share = quota // len(mine)
+            budgets = list(range(1, st[3] + 1))
+            if len(budgets) > share:
+                budgets = sorted(rng.sample(budgets, share))
+            for m in budgets:
+                kw2 = dict(kw); meta2 = dict(meta)
+                kw2["max_steps"] = m
+                meta2["budget_sweep"] = [m, st[3]]
+                cid = "%s%d" % (tag, c)
+                cases.append(gen.solve_case(cid, **kw2))
+                metas[cid] = (meta2, kw2)
+                c += 1
+    return cases, metas
